@@ -204,6 +204,11 @@ mutant('C03', 'constant-matrix-too-eager', 'solver.py',
        "        self.is_constant_matrix = self.is_linear\n",
        'System caches the matrix of a linear problem although it depends on another argument', expect='V-system')
 
+mutant('C03', 'locate-arguments-dict-not-copied', 'topology.py',
+       "        ielems, points = self._locate(geom, coords, tol, eps, dict(arguments or ()), maxiter, maxdist, skip_missing)\n",
+       "        ielems, points = self._locate(geom, coords, tol, eps, arguments if arguments is not None else {}, maxiter, maxdist, skip_missing)\n",
+       'locate stores its private arguments in the dictionary passed by the caller', expect='A-argument')
+
 # ------------------------------------------------------------------ C17
 mutant('C17', 'ndarray-hash-without-shape-dtype', 'types.py',
        "        h.update('{}{}\\0'.format(','.join(map(str, data.shape)), data.dtype.str).encode())\n",
